@@ -37,6 +37,15 @@
  *   (O lines, modelled: Cello/Config.lean namespace Keep) keep programs — holders 0..MAXH-1 that are the sole path to managed objects:
  *                     hnew h kind | hput h k id pay | hget h k | hread h | hrem h k | hrel h k | hshrink h n | hreserve h n
  *                     | hchurn m | hdrop h | hdel h        (see "keep programs" below)
+ *   (O lines, modelled: Cello/ConfigType.lean) RUN-TIME TYPES — type slots 0..MAXTY-1, object slots 0..MAXOB-1 (see "run-time types" below):
+ *                     ty T ROUTE NAME SIZE INST*      new(Type, $S(NAME), $I(SIZE), instances…) by ROUTE = new | raw | root (new_raw / new_root)
+ *                                                     | con | conraw | conroot (construct_with(alloc / alloc_raw / alloc_root (Type), …))
+ *                     tybig T ROUTE NAME SIZE n k     the same with n instances: table entries k, k+1, … cyclically (n up to CELLO_MAX_INSTANCES)
+ *                     tyre T NAME SIZE INST*          destruct(T); construct_with(T, …): re-construction in place
+ *                     tyq T CLS | tyshow T | tydel T  type_implements / type_instance / type_implements_method; "%s|%$"; del by route
+ *                     ob O T ROUTE v | od O           an object of type T by new_with / new_raw_with / new_root_with; del by route
+ *                     oq O Q                          Q = cint | len | cstr | cflt | hash | cmp O2 | eq O2 | asg O2 | show | size | impl CLS | cast
+ *                                                     | mem | get | push k | pop | cat k | resize n | copy D
  */
 #include "common.h"
 #include <inttypes.h>
@@ -530,6 +539,141 @@ static int k_cmp_idx(const void* a, const void* b) { long long x = kk_[*(const i
 
 
 static void del_by_mode(var x, int mode) { if (mode == 1) del_raw(x); else if (mode == 2) del_root(x); else del(x); }
+
+/* ------------------------------------------------------------------------------------------------ run-time types
+ * Types made at run time with new(Type, name, size, instances…) from instance objects the harness provides (static storage: a
+ * run-time type keeps the POINTERS it was given).  The layout of such a type object depends on the configuration (18 cache words
+ * and instance triples from cell 8 with the method cache, none and from cell 2 without); nothing a program observes may.
+ * Every member works on the first 8 bytes of the object (`struct RObj`) and returns something that tells which member ran.
+ * The shadow (direct oracle) is the instance list that was PASSED: name, size, `type_implements`, `type_instance`, which
+ * member a call reaches, defaults where a class is not declared — all checked against it after every operation. */
+#define MAXTY 8
+#define MAXOB 24
+#define RT_NINST 20
+#define RT_MAXI 256
+#define RT_NPROBE 18
+struct RObj { int64_t v; };
+static long rt_dtors = 0;
+#define RV(x) (((struct RObj*)(x))->v)
+static void RT_New(var self, var args) { RV(self) = c_int(get(args, $I(0))); }
+static void RT_Del(var self) { rt_dtors++; }
+static int RT_Cmp(var self, var obj) { return RV(obj) < RV(self) ? -1 : RV(obj) > RV(self) ? 1 : 0; }     /* REVERSED */
+static uint64_t RT_Hash(var self) { return (uint64_t)(RV(self) + 7000); }
+static uint64_t RT_Hash2(var self) { return (uint64_t)(RV(self) + 9000); }
+static size_t RT_Len(var self) { return (size_t)(RV(self) + 100); }
+static size_t RT_Len2(var self) { return (size_t)(RV(self) + 300); }
+static int64_t RT_C_Int(var self) { return RV(self) + 2000; }
+static int64_t RT_C_Int2(var self) { return RV(self) + 4000; }
+static int RT_Show(var self, var out, int pos) { return print_to(out, pos, "<rt %li>", $I(RV(self))); }
+static void RT_Assign(var self, var obj) { RV(self) = RV(obj) + 1; }
+static var RT_Copy(var self) { var r = alloc(type_of(self)); RV(r) = RV(self) + 5; return r; }
+static size_t RT_Size(void) { return 32; }
+static char rt_strbuf[32];
+static char* RT_C_Str(var self) { snprintf(rt_strbuf, sizeof rt_strbuf, "rt%lld", (long long)RV(self)); return rt_strbuf; }
+static double RT_C_Float(var self) { return (double)RV(self) + 0.25; }
+static var RT_Get(var self, var key) { return self; }
+static bool RT_Mem(var self, var key) { return (RV(self) & 1) != 0; }
+static void RT_Push(var self, var obj) { RV(self) += c_int(obj); }
+static void RT_Pop(var self) { RV(self) -= 1; }
+static void RT_Concat(var self, var obj) { RV(self) += 100 * c_int(obj); }
+static void RT_Mark(var self, var gc, void (*f)(var, void*)) { }
+static void RT_Resize(var self, size_t n) { RV(self) = (int64_t)n; }
+
+static const char* RT_TOK[RT_NINST] = { "New", "Cmp", "Hash", "Len", "C_Int", "Show", "Assign", "Copy", "Size", "C_Str", "C_Float", "Get",
+  "Push", "Concat", "Mark", "Resize", "Hash2", "Len2", "C_Int2", "New0" };
+/* which members of each provided instance are non-NULL (same table as Cello/ConfigType.lean `table`) */
+static const unsigned char RT_MEMB[RT_NINST][6] = { {1,1}, {1}, {1}, {1}, {1}, {1,0}, {1}, {1}, {1}, {1}, {1}, {1,0,1,0,0,0}, {1,1,0,0}, {1,0}, {1}, {1},
+  {1}, {1}, {1}, {1,0} };
+static var rt_ibuf[RT_NINST][12];
+static var rt_inst[RT_NINST];          /* the instance objects */
+static var rt_icls[RT_NINST];          /* the class each belongs to */
+static const char* RT_PROBE[RT_NPROBE] = { "New", "Cmp", "Hash", "Len", "C_Int", "Show", "Assign", "Copy", "Size", "C_Str", "C_Float", "Get", "Push",
+  "Concat", "Mark", "Resize", "Iter", "Doc" };
+static const int RT_ARITY[RT_NPROBE] = { 2, 1, 1, 1, 1, 2, 1, 1, 1, 1, 1, 6, 4, 2, 1, 1, 0, 0 };
+static var rt_pcls[RT_NPROBE];
+#define RT_MK(k, C, ...) do { struct C tmp_ = { __VA_ARGS__ }; memset(rt_ibuf[k], 0, sizeof rt_ibuf[k]); \
+    rt_inst[k] = header_init(rt_ibuf[k], C, AllocStatic); memcpy(rt_inst[k], &tmp_, sizeof tmp_); rt_icls[k] = C; } while (0)
+static void rt_init(void) {
+  RT_MK(0, New, RT_New, RT_Del);      RT_MK(1, Cmp, RT_Cmp);          RT_MK(2, Hash, RT_Hash);        RT_MK(3, Len, RT_Len);
+  RT_MK(4, C_Int, RT_C_Int);          RT_MK(5, Show, RT_Show, NULL);  RT_MK(6, Assign, RT_Assign);    RT_MK(7, Copy, RT_Copy);
+  RT_MK(8, Size, RT_Size);            RT_MK(9, C_Str, RT_C_Str);      RT_MK(10, C_Float, RT_C_Float);
+  RT_MK(11, Get, RT_Get, NULL, RT_Mem, NULL, NULL, NULL);             RT_MK(12, Push, RT_Push, RT_Pop, NULL, NULL);
+  RT_MK(13, Concat, RT_Concat, NULL); RT_MK(14, Mark, RT_Mark);       RT_MK(15, Resize, RT_Resize);   RT_MK(16, Hash, RT_Hash2);
+  RT_MK(17, Len, RT_Len2);            RT_MK(18, C_Int, RT_C_Int2);    RT_MK(19, New, RT_New, NULL);
+  var pc[RT_NPROBE] = { New, Cmp, Hash, Len, C_Int, Show, Assign, Copy, Size, C_Str, C_Float, Get, Push, Concat, Mark, Resize, Iter, Doc };
+  memcpy(rt_pcls, pc, sizeof pc);
+}
+typedef struct { int live, mode, n, bad; short inst[RT_MAXI + 1]; char name[24]; long long size; } RTY;
+typedef struct { int live, ty, mode; long long v; } ROB;
+static RTY rty[MAXTY];
+static ROB rob[MAXOB];
+static var* TY;                        /* the type objects and the objects made from them: arrays in main's frame */
+static var* OB;
+static char rt_names[MAXTY][2][24];    /* a type object keeps the POINTER to its name: two buffers per slot, used alternately */
+static int rt_namesel[MAXTY];
+static size_t n_rt = 0;
+static int rt_route6(const char* t) { static const char* R[] = { "new", "raw", "root", "con", "conraw", "conroot" }; for (int i = 0; i < 6; i++) if (!strcmp(R[i], t)) return i; return -1; }
+static int rt_route3(const char* t) { static const char* R[] = { "new", "raw", "root" }; for (int i = 0; i < 3; i++) if (!strcmp(R[i], t)) return i; return -1; }
+static int rt_tok(const char* t) { for (int i = 0; i < RT_NINST; i++) if (!strcmp(RT_TOK[i], t)) return i; return -1; }
+static int rt_probe(const char* t) { for (int i = 0; i < RT_NPROBE; i++) if (!strcmp(RT_PROBE[i], t)) return i; return -1; }
+/* the first instance of the list that belongs to class c: what the type DECLARES for c (-1: nothing) */
+static int rt_decl(const RTY* r, var c) { for (int i = 0; i < r->n; i++) if (rt_icls[r->inst[i]] == c) return r->inst[i]; return -1; }
+static int rt_needs(const RTY* r, var c, int m) { int k = rt_decl(r, c); return k >= 0 && RT_MEMB[k][m]; }
+static int rt_valid_name(const char* n) {
+  size_t l = strlen(n); if (l < 1 || l > 20) return 0;
+  for (const char* q = n; *q; q++) if (!((*q >= '0' && *q <= '9') || (*q >= 'a' && *q <= 'z') || (*q >= 'A' && *q <= 'Z'))) return 0;
+  return 1;
+}
+static int rt_valid_size(long long z) { return z >= 8 && z <= 64 && z % 8 == 0; }
+static int rt_in_range(long long v) { return v >= 0 && v <= 255; }
+static int rt_has_objects(int t) { for (int o = 0; o < MAXOB; o++) if (rob[o].live && rob[o].ty == t) return 1; return 0; }
+static int rt_inst_index(var p) { for (int i = 0; i < RT_NINST; i++) if (rt_inst[i] == p) return i; return -1; }
+
+/* the argument tuple (name, size, instances…, Terminal) in static storage; the String and the Int are built by hand */
+static var rt_args[RT_MAXI + 4];
+static var rt_sbuf[(sizeof(struct Header) + sizeof(struct String)) / sizeof(var) + 1];
+static var rt_nbuf[(sizeof(struct Header) + sizeof(struct Int)) / sizeof(var) + 1];
+static var rt_tbuf[(sizeof(struct Header) + sizeof(struct Tuple)) / sizeof(var) + 1];
+static var rt_tuple_for(int t, const RTY* r) {
+  memset(rt_sbuf, 0, sizeof rt_sbuf); memset(rt_nbuf, 0, sizeof rt_nbuf); memset(rt_tbuf, 0, sizeof rt_tbuf);
+  char* nb = rt_names[t][rt_namesel[t] ^= 1];
+  snprintf(nb, 24, "%s", r->name);
+  var so = header_init(rt_sbuf, String, AllocStack); ((struct String*)so)->val = nb;
+  var no = header_init(rt_nbuf, Int, AllocStack); ((struct Int*)no)->val = r->size;
+  rt_args[0] = so; rt_args[1] = no;
+  for (int i = 0; i < r->n; i++) rt_args[2 + i] = rt_inst[r->inst[i]];
+  rt_args[2 + r->n] = Terminal;
+  var to = header_init(rt_tbuf, Tuple, AllocStack); ((struct Tuple*)to)->items = rt_args;
+  return to;
+}
+static __attribute__((noinline)) var rt_construct(int route, var tup) {
+  switch (route) {
+    case 0: return new_with(Type, tup);
+    case 1: return new_raw_with(Type, tup);
+    case 2: return new_root_with(Type, tup);
+    case 3: return construct_with(alloc(Type), tup);
+    case 4: return construct_with(alloc_raw(Type), tup);
+    default: return construct_with(alloc_root(Type), tup);
+  }
+}
+/* what every construction prints: the name and the size the type object answers with, type_implements for every probe class —
+   each checked against what was passed */
+static void rt_describe(int t) {
+  var T = TY[t]; RTY* r = &rty[t]; char bits[RT_NPROBE + 1], want[RT_NPROBE + 1], a[64], b[64];
+  const char* nm = c_str(T);
+  size_t bs = Type_Builtin_Size(T), sz = size(T), wsz = rt_decl(r, Size) >= 0 ? 32 : (size_t)r->size;
+  for (int i = 0; i < RT_NPROBE; i++) { bits[i] = type_implements(T, rt_pcls[i]) ? '1' : '0'; want[i] = rt_decl(r, rt_pcls[i]) >= 0 ? '1' : '0'; }
+  bits[RT_NPROBE] = 0; want[RT_NPROBE] = 0;
+  O("ty name=%s bsize=%zu size=%zu impl=%s", nm ? nm : "(null)", bs, sz, bits);
+  if (!nm || strcmp(nm, r->name)) { XF("run-time-type-name", nm ? nm : "(null)", r->name); r->bad = 1; }
+  if (bs != (size_t)r->size || sz != wsz) { snprintf(a, sizeof a, "%zu/%zu", bs, sz); snprintf(b, sizeof b, "%lld/%zu", r->size, wsz); XF("run-time-type-size", a, b); r->bad = 1; }
+  if (strcmp(bits, want)) { XF("run-time-type-implements", bits, want); r->bad = 1; }
+  /* every instance that was passed must be there, in order, and nothing else: type_instance for each declared class */
+  for (int i = 0; i < RT_NPROBE && !r->bad; i++) {
+    int k = rt_decl(r, rt_pcls[i]); var got = type_instance(T, rt_pcls[i]);
+    if (got != (k >= 0 ? rt_inst[k] : NULL)) { snprintf(a, sizeof a, "%s:%d", RT_PROBE[i], rt_inst_index(got)); snprintf(b, sizeof b, "%s:%d", RT_PROBE[i], k); XF("run-time-type-instance", a, b); r->bad = 1; }
+  }
+}
 
 /* ------------------------------------------------------------------------------------------------ nested holders
  * A container whose elements are themselves containers (Array of Int, List of Int) or Tuples, all embedded in the outer container's
@@ -1594,6 +1738,209 @@ static void run_op(int nt, char** t) {
     }
     BAD();
   }
+  /* ---------------- run-time types (O lines: the model is Cello/ConfigType.lean) */
+  if (!strcmp(op, "ty") || !strcmp(op, "tybig") || !strcmp(op, "tyre")) {
+    int tt, route = 0; long long size = 0, bn = 0, bk = 0; int cnt = 0; static short insts[RT_MAXI + 2]; const char* name;
+    int isre = op[2] == 'r', isbig = op[2] == 'b';
+    if (isbig) {
+      if (nt != 7 || !parse_slot(t[1], &tt)) BAD();
+      if ((route = rt_route6(t[2])) < 0 || !parse_int(t[4], &size) || !parse_int(t[5], &bn) || !parse_int(t[6], &bk)) BAD();
+      name = t[3];
+    } else if (isre) {
+      if (nt < 4 || !parse_slot(t[1], &tt) || !parse_int(t[3], &size)) BAD();
+      name = t[2];
+      for (int i = 4; i < nt; i++) { int k = rt_tok(t[i]); if (k < 0) BAD(); insts[cnt++] = (short)k; }
+    } else {
+      if (nt < 5 || !parse_slot(t[1], &tt)) BAD();
+      if ((route = rt_route6(t[2])) < 0 || !parse_int(t[4], &size)) BAD();
+      name = t[3];
+      for (int i = 5; i < nt; i++) { int k = rt_tok(t[i]); if (k < 0) BAD(); insts[cnt++] = (short)k; }
+    }
+    if (isbig) {
+      if (bn < 0 || bk < 0 || bn > RT_MAXI) OOC();
+      cnt = (int)bn;
+      for (int i = 0; i < cnt; i++) insts[i] = (short)((bk + i) % RT_NINST);
+    }
+    if (tt >= MAXTY || !rt_valid_name(name) || !rt_valid_size(size)) OOC();
+    RTY* r = &rty[tt];
+    if (isre) { if (!r->live || r->bad || rt_has_objects(tt)) OOC(); }
+    else if (r->live) OOC();
+    n_exec++; n_rt++;
+    int mode = isre ? r->mode : route % 3;
+    memset(r->inst, 0, sizeof r->inst);
+    r->n = cnt; for (int i = 0; i < cnt; i++) r->inst[i] = insts[i];
+    snprintf(r->name, sizeof r->name, "%s", name); r->size = size; r->mode = mode; r->bad = 0;
+    V_TRY(exc, {
+      var tup = rt_tuple_for(tt, r);
+      if (isre) { destruct(TY[tt]); construct_with(TY[tt], tup); }
+      else TY[tt] = rt_construct(route, tup);
+    });
+    if (exc) { unexpected(exc); O("err %s", v_exc_name(exc)); if (!isre) TY[tt] = NULL; r->live = isre; r->bad = 1; return; }
+    r->live = 1;
+    V_TRY(exc, rt_describe(tt));
+    if (exc) { unexpected(exc); r->bad = 1; }
+    return;
+  }
+  if (!strcmp(op, "tyq") || !strcmp(op, "tyshow") || !strcmp(op, "tydel")) {
+    int tt;
+    if (nt != (op[2] == 'q' ? 3 : 2) || !parse_slot(t[1], &tt)) BAD();
+    if (tt >= MAXTY || !rty[tt].live) OOC();
+    RTY* r = &rty[tt]; var T = TY[tt];
+    if (op[2] == 'd') {
+      if (rt_has_objects(tt)) OOC();
+      n_exec++; n_rt++;
+      if (!r->bad) { V_TRY(exc, del_by_mode(T, r->mode)); if (exc) unexpected(exc); }
+      TY[tt] = NULL; memset(r, 0, sizeof *r);
+      O("ok"); return;
+    }
+    if (op[2] == 'q') {
+      int pc = rt_probe(t[2]);
+      if (pc < 0 || r->bad) OOC();
+      n_exec++; n_rt++;
+      var C = rt_pcls[pc]; bool im = false; var inst = NULL; char ms[8], wm[8]; int ar = RT_ARITY[pc];
+      V_TRY(exc, {
+        im = type_implements(T, C); inst = type_instance(T, C);
+        for (int k = 0; k < ar; k++) ms[k] = type_implements_method_at_offset(T, C, k * sizeof(var)) ? '1' : '0';
+      });
+      if (exc) { unexpected(exc); O("err %s", v_exc_name(exc)); return; }
+      ms[ar] = 0;
+      int k = rt_decl(r, C), gi = rt_inst_index(inst);
+      for (int j = 0; j < ar; j++) wm[j] = (k >= 0 && RT_MEMB[k][j]) ? '1' : '0';
+      wm[ar] = 0;
+      if (inst == NULL) snprintf(e1, sizeof e1, "-"); else if (gi < 0) snprintf(e1, sizeof e1, "?"); else snprintf(e1, sizeof e1, "%d", gi);
+      if (k < 0) snprintf(e2, sizeof e2, "-"); else snprintf(e2, sizeof e2, "%d", k);
+      if ((int)im != (k >= 0)) XF("type_implements", im ? "1" : "0", k >= 0 ? "1" : "0");
+      if (strcmp(e1, e2)) XF("type_instance", e1, e2);
+      if (strcmp(ms, wm)) XF("type_implements_method", ms, wm);
+      O("tyq impl=%d inst=%s m=%s", (int)im, e1, ms); return;
+    }
+    if (r->bad) OOC();
+    n_exec++; n_rt++;
+    var s = NULL;
+    V_TRY(exc, { s = new(String, $S("")); print_to(s, 0, "%s|%$", T, T); });
+    if (exc) { unexpected(exc); O("err %s", v_exc_name(exc)); return; }
+    snprintf(e2, sizeof e2, "%s|%s", r->name, r->name);
+    if (strcmp(c_str(s), e2)) XF("run-time-type-print", c_str(s), e2);
+    O("tyshow %s", c_str(s)); del(s); return;
+  }
+  if (!strcmp(op, "ob")) {
+    int oo, tt, route; long long v0;
+    if (nt != 5 || !parse_slot(t[1], &oo) || !parse_slot(t[2], &tt)) BAD();
+    if ((route = rt_route3(t[3])) < 0 || !parse_int(t[4], &v0)) BAD();
+    if (tt >= MAXTY || !rty[tt].live) OOC();
+    if (oo >= MAXOB || rob[oo].live || !rt_in_range(v0) || rty[tt].bad) OOC();
+    n_exec++; n_rt++;
+    RTY* r = &rty[tt]; var T = TY[tt]; var p = NULL;
+    int hasnew = rt_decl(r, New) >= 0;
+    long long want = hasnew ? v0 : 0;
+    V_TRY(exc, {
+      var tup = hasnew ? tuple($I(v0)) : tuple();        /* without a constructor the harness passes no argument: calloc'ed zeroes */
+      p = route == 0 ? new_with(T, tup) : route == 1 ? new_raw_with(T, tup) : new_root_with(T, tup);
+    });
+    if (exc) { unexpected(exc); O("err %s", v_exc_name(exc)); return; }
+    OB[oo] = p; rob[oo].live = 1; rob[oo].ty = tt; rob[oo].mode = route; rob[oo].v = want;
+    const char* tn = c_str(type_of(p)); size_t sz = size(type_of(p));
+    if (type_of(p) != T) XF("object-type", tn ? tn : "(null)", r->name);
+    if (RV(p) != want) { snprintf(e1, sizeof e1, "%lld", (long long)RV(p)); snprintf(e2, sizeof e2, "%lld", want); XF("object-value-after-new", e1, e2); }
+    O("ob v=%lld type=%s size=%zu", (long long)RV(p), tn ? tn : "(null)", sz); return;
+  }
+  if (!strcmp(op, "od")) {
+    int oo;
+    if (nt != 2 || !parse_slot(t[1], &oo)) BAD();
+    if (oo >= MAXOB || !rob[oo].live || rty[rob[oo].ty].bad) OOC();
+    n_exec++; n_rt++;
+    RTY* r = &rty[rob[oo].ty]; long d0 = rt_dtors;
+    V_TRY(exc, del_by_mode(OB[oo], rob[oo].mode));
+    if (exc) { unexpected(exc); O("err %s", v_exc_name(exc)); return; }
+    OB[oo] = NULL; memset(&rob[oo], 0, sizeof rob[oo]);
+    long want = rt_needs(r, New, 1) ? 1 : 0;
+    if (rt_dtors - d0 != want) { snprintf(e1, sizeof e1, "%ld", rt_dtors - d0); snprintf(e2, sizeof e2, "%ld", want); XF("object-destructor-runs", e1, e2); }
+    O("od dtor=%ld", rt_dtors - d0); return;
+  }
+  if (!strcmp(op, "oq")) {
+    int oo, o2 = -1; long long qa = 0; int pc = -1;
+    if (nt < 3 || !parse_slot(t[1], &oo)) BAD();
+    const char* q = t[2];
+    static const char* Q0[] = { "cint", "len", "cstr", "cflt", "hash", "show", "size", "cast", "mem", "get", "pop", NULL };
+    int is0 = 0; for (int i = 0; Q0[i]; i++) if (!strcmp(Q0[i], q)) is0 = 1;
+    if (is0) { if (nt != 3) BAD(); }
+    else if (!strcmp(q, "cmp") || !strcmp(q, "eq") || !strcmp(q, "asg") || !strcmp(q, "copy")) { if (nt != 4 || !parse_slot(t[3], &o2)) BAD(); }
+    else if (!strcmp(q, "impl")) { if (nt != 4) BAD(); pc = rt_probe(t[3]); }
+    else if (!strcmp(q, "push") || !strcmp(q, "cat") || !strcmp(q, "resize")) { if (nt != 4 || !parse_int(t[3], &qa)) BAD(); }
+    else BAD();
+    if (oo >= MAXOB || !rob[oo].live || rty[rob[oo].ty].bad) OOC();
+    ROB* ob = &rob[oo]; RTY* r = &rty[ob->ty]; var T = TY[ob->ty]; var p = OB[oo]; long long v = ob->v;
+    /* in contract? (decided on what the type was DECLARED with) */
+    long long nv = v; int needc = 0;
+    if (!strcmp(q, "cint")) needc = rt_needs(r, C_Int, 0);
+    else if (!strcmp(q, "len")) needc = rt_needs(r, Len, 0);
+    else if (!strcmp(q, "cstr")) needc = rt_needs(r, C_Str, 0);
+    else if (!strcmp(q, "cflt")) needc = rt_needs(r, C_Float, 0);
+    else if (!strcmp(q, "mem")) needc = rt_needs(r, Get, 2);
+    else if (!strcmp(q, "get")) needc = rt_needs(r, Get, 0);
+    else if (!strcmp(q, "push")) { nv = v + qa; needc = rt_in_range(nv) && rt_needs(r, Push, 0); }
+    else if (!strcmp(q, "pop")) { nv = v - 1; needc = rt_in_range(nv) && rt_needs(r, Push, 1); }
+    else if (!strcmp(q, "cat")) { nv = v + 100 * qa; needc = qa > -1000 && qa < 1000 && rt_in_range(nv) && rt_needs(r, Concat, 0); }
+    else if (!strcmp(q, "resize")) { nv = qa; needc = rt_in_range(nv) && rt_needs(r, Resize, 0); }
+    else if (!strcmp(q, "cmp") || !strcmp(q, "eq")) needc = o2 < MAXOB && rob[o2].live && rob[o2].ty == ob->ty;
+    else if (!strcmp(q, "asg")) { needc = o2 < MAXOB && rob[o2].live && rob[o2].ty == ob->ty && o2 != oo && rt_in_range(rob[o2].v + 1); if (needc) nv = rt_needs(r, Assign, 0) ? rob[o2].v + 1 : rob[o2].v; }
+    else if (!strcmp(q, "copy")) { needc = o2 < MAXOB && !rob[o2].live && o2 != oo && rt_in_range(v + 5); if (needc) nv = rt_needs(r, Copy, 0) ? v + 5 : rt_needs(r, Assign, 0) ? v + 1 : v; }
+    else if (!strcmp(q, "impl")) needc = pc >= 0;
+    else needc = 1;      /* hash show size cast: defined for every type */
+    if (!needc) OOC();
+    n_exec++; n_rt++;
+    char outb[160]; outb[0] = 0; char wantb[160]; wantb[0] = 0;
+    V_TRY(exc, {
+      if (!strcmp(q, "cint")) { snprintf(outb, sizeof outb, "cint %lld", (long long)c_int(p)); snprintf(wantb, sizeof wantb, "cint %lld", v + (rt_decl(r, C_Int) == 18 ? 4000 : 2000)); }
+      else if (!strcmp(q, "len")) { snprintf(outb, sizeof outb, "len %zu", len(p)); snprintf(wantb, sizeof wantb, "len %lld", v + (rt_decl(r, Len) == 17 ? 300 : 100)); }
+      else if (!strcmp(q, "cstr")) { snprintf(outb, sizeof outb, "cstr %s", c_str(p)); snprintf(wantb, sizeof wantb, "cstr rt%lld", v); }
+      else if (!strcmp(q, "cflt")) { snprintf(outb, sizeof outb, "cflt %lld", (long long)(c_float(p) * 4)); snprintf(wantb, sizeof wantb, "cflt %lld", 4 * v + 1); }
+      else if (!strcmp(q, "mem")) { snprintf(outb, sizeof outb, "mem %d", (int)mem(p, $I(3))); snprintf(wantb, sizeof wantb, "mem %d", (int)(v & 1)); }
+      else if (!strcmp(q, "get")) { snprintf(outb, sizeof outb, "get %d", get(p, $I(3)) == p); snprintf(wantb, sizeof wantb, "get 1"); }
+      else if (!strcmp(q, "push")) { push(p, $I(qa)); snprintf(outb, sizeof outb, "push %lld", (long long)RV(p)); snprintf(wantb, sizeof wantb, "push %lld", nv); }
+      else if (!strcmp(q, "pop")) { pop(p); snprintf(outb, sizeof outb, "pop %lld", (long long)RV(p)); snprintf(wantb, sizeof wantb, "pop %lld", nv); }
+      else if (!strcmp(q, "cat")) { concat(p, $I(qa)); snprintf(outb, sizeof outb, "cat %lld", (long long)RV(p)); snprintf(wantb, sizeof wantb, "cat %lld", nv); }
+      else if (!strcmp(q, "resize")) { resize(p, (size_t)qa); snprintf(outb, sizeof outb, "resize %lld", (long long)RV(p)); snprintf(wantb, sizeof wantb, "resize %lld", nv); }
+      else if (!strcmp(q, "hash")) {
+        uint64_t h = hash(p); int k = rt_decl(r, Hash);
+        if (k >= 0) { snprintf(outb, sizeof outb, "hash %llu", (unsigned long long)h); snprintf(wantb, sizeof wantb, "hash %lld", v + (k == 16 ? 9000 : 7000)); }
+        else { snprintf(wantb, sizeof wantb, "hash *");        /* the default: hash_data over size(T) bytes of the object */
+               snprintf(outb, sizeof outb, h == hash_data(p, size(T)) ? "hash *" : "hash %llu", (unsigned long long)h); }
+      }
+      else if (!strcmp(q, "cmp") || !strcmp(q, "eq")) {
+        long long w = rob[o2].v; int declared = rt_decl(r, Cmp) >= 0;
+        int ws = declared ? (w < v ? -1 : w > v ? 1 : 0) : (v < w ? -1 : v > w ? 1 : 0);        /* default: memcmp over size(T) bytes, values 0..255 */
+        if (q[0] == 'c') { int c = cmp(p, OB[o2]); snprintf(outb, sizeof outb, "cmp %d", c < 0 ? -1 : c > 0 ? 1 : 0); snprintf(wantb, sizeof wantb, "cmp %d", ws); }
+        else { snprintf(outb, sizeof outb, "eq %d", (int)eq(p, OB[o2])); snprintf(wantb, sizeof wantb, "eq %d", (int)(v == w)); }
+      }
+      else if (!strcmp(q, "asg")) { assign(p, OB[o2]); snprintf(outb, sizeof outb, "asg %lld", (long long)RV(p)); snprintf(wantb, sizeof wantb, "asg %lld", nv); }
+      else if (!strcmp(q, "show")) {
+        var s = new(String, $S("")); show_to(p, s, 0); const char* cs = c_str(s);
+        if (rt_needs(r, Show, 0)) { snprintf(outb, sizeof outb, "show %s", cs); snprintf(wantb, sizeof wantb, "show <rt %lld>", v); }
+        else {     /* the default prints the type's name and the address: "<'Name' At 0x…>" — the address is masked */
+          const char* at = strstr(cs, "' At 0x");
+          if (at && cs[0] == '<' && cs[1] == '\'' && at - cs - 2 < 40) snprintf(outb, sizeof outb, "show <'%.*s' At *>", (int)(at - cs - 2), cs + 2);
+          else snprintf(outb, sizeof outb, "show %.100s", cs);
+          snprintf(wantb, sizeof wantb, "show <'%s' At *>", r->name);
+        }
+        del(s);
+      }
+      else if (!strcmp(q, "size")) { snprintf(outb, sizeof outb, "size %zu", size(type_of(p))); snprintf(wantb, sizeof wantb, "size %lld", rt_decl(r, Size) >= 0 ? 32LL : r->size); }
+      else if (!strcmp(q, "impl")) { snprintf(outb, sizeof outb, "impl %d", (int)implements(p, rt_pcls[pc])); snprintf(wantb, sizeof wantb, "impl %d", rt_decl(r, rt_pcls[pc]) >= 0); }
+      else if (!strcmp(q, "cast")) { snprintf(outb, sizeof outb, "cast %d", cast(p, T) == p); snprintf(wantb, sizeof wantb, "cast 1"); }
+      else if (!strcmp(q, "copy")) {
+        var c = copy(p);
+        OB[o2] = c; rob[o2].live = 1; rob[o2].ty = ob->ty; rob[o2].mode = 0; rob[o2].v = nv;
+        if (type_of(c) != T) XF("copy-type", "", r->name);
+        snprintf(outb, sizeof outb, "copy %lld", (long long)RV(c)); snprintf(wantb, sizeof wantb, "copy %lld", nv);
+      }
+    });
+    if (exc) { unexpected(exc); O("err %s", v_exc_name(exc)); return; }
+    if (strcmp(q, "copy")) ob->v = nv;
+    if (strcmp(outb, wantb)) { snprintf(e1, sizeof e1, "%.100s", outb); snprintf(e2, sizeof e2, "%.100s", wantb); XF("run-time-type-object", e1, e2); }
+    if (RV(p) != ob->v) { snprintf(e1, sizeof e1, "%lld", (long long)RV(p)); snprintf(e2, sizeof e2, "%lld", ob->v); XF("object-value", e1, e2); }
+    O("%s", outb); return;
+  }
   if (!strcmp(op, "gc")) {
     if (nt != 1) BAD();
     n_exec++;
@@ -1606,6 +1953,7 @@ static void run_op(int nt, char** t) {
     for (int s = 0; s < MAXSLOT; s++) if (LIVE(s)) check_obj(s, "gc");
     for (int s = 0; s < MAXT; s++) if (tsh[s].kind == K_TUPLE) check_tuple(s, "gc");
     for (int s = 0; s < MAXN; s++) if (xh[s].outer) x_check(s, "gc");
+    for (int o = 0; o < MAXOB; o++) if (rob[o].live && !rty[rob[o].ty].bad && (RV(OB[o]) != rob[o].v || type_of(OB[o]) != TY[rob[o].ty])) XF("run-time-type-object-after-gc", "", "");
     return;
   }
   BAD();
@@ -1618,6 +1966,9 @@ int main(int argc, char** argv) {
   var tslots[MAXT]; memset(tslots, 0, sizeof tslots); TS = tslots;
   var hslots[MAXH]; memset(hslots, 0, sizeof hslots); HH = hslots;
   var nslots_[MAXN]; memset(nslots_, 0, sizeof nslots_); NS = nslots_;
+  var tyslots[MAXTY]; memset(tyslots, 0, sizeof tyslots); TY = tyslots;
+  var obslots[MAXOB]; memset(obslots, 0, sizeof obslots); OB = obslots;
+  rt_init();
   keep_fn = $(Function, keep_thread_fn);
   size_t n; char** lines = v_read_lines(argv[1], &n);
   I("cfg=%s opt=%s header=%zu cache=%d", VCFG, VOPT, sizeof(struct Header), (int)CELLO_CACHE_NUM);
@@ -1652,8 +2003,20 @@ int main(int argc, char** argv) {
     if (!k_poisoned) { var exc; V_TRY(exc, k_delete_all(h)); if (exc) unexpected(exc); k_forget(h, 1); }
   }
   k_audit("teardown");
-  O("end live=%zu holders=%zu", live, hlive);
+  /* run-time types: the objects first, then the types they belong to */
+  size_t tylive = 0, oblive = 0;
+  for (int o = 0; o < MAXOB; o++) if (rob[o].live) {
+    oblive++;
+    if (!rty[rob[o].ty].bad) { var exc; V_TRY(exc, del_by_mode(OB[o], rob[o].mode)); if (exc) unexpected(exc); }
+    OB[o] = NULL;
+  }
+  for (int t = 0; t < MAXTY; t++) if (rty[t].live) {
+    tylive++;
+    if (!rty[t].bad) { var exc; V_TRY(exc, del_by_mode(TY[t], rty[t].mode)); if (exc) unexpected(exc); }
+    TY[t] = NULL;
+  }
+  O("end live=%zu holders=%zu types=%zu objects=%zu", live, hlive, tylive, oblive);
   fprintf(vout, "T end tuples=%zu nested=%zu\n", tlive, nlive);
-  I("executed=%zu out-of-contract=%zu bad=%zu oracle-failures=%zu keep-ops=%zu keep-reads=%zu high-slot-entries-read=%zu tracked=%d edits=%zu elem-edits=%zu nested-ops=%zu thread-runs=%zu", n_exec, n_ooc, n_bad, n_x, n_keep, n_keep_reads, n_high, led_top, n_ed, n_ed_elem, n_nested, n_thread_runs);
+  I("executed=%zu out-of-contract=%zu bad=%zu oracle-failures=%zu keep-ops=%zu keep-reads=%zu high-slot-entries-read=%zu tracked=%d edits=%zu elem-edits=%zu nested-ops=%zu thread-runs=%zu rt-ops=%zu", n_exec, n_ooc, n_bad, n_x, n_keep, n_keep_reads, n_high, led_top, n_ed, n_ed_elem, n_nested, n_thread_runs, n_rt);
   return 0;
 }
